@@ -841,7 +841,11 @@ namespace
         if (to >= (int)arr->size())
         {
             runtime.__logmsg(err::IndexOutOfRangeWeak(runtime.context_active().current_frame().diag_info_from_position(), arr->size(), to));
-            to = (int)(arr->size() - 1);
+            to = (int)arr->size() - 1;
+        }
+        if (from > to)
+        { // The range starts behind the last element: nothing to delete
+            return {};
         }
         arr->erase(arr->begin() + from, arr->begin() + to + 1);
         return {};
